@@ -26,6 +26,7 @@ type advCase struct {
 	Point string   `json:"point"`
 	Seq   []string `json:"seq"`
 	Dep   bool     `json:"dep"` // a pair of two point-specific classes: always run
+	Net   string   `json:"net"` // "ok" | "down" | "stall": the network towards the adversary's addresses during the sequence
 	line  string
 }
 
@@ -74,6 +75,13 @@ func (a *advWorld) curOf(id channel.ID) *channel.State {
 		}
 	}
 	return st
+}
+
+func orEmpty(m map[wire.AddrKey]bool) map[wire.AddrKey]bool {
+	if m == nil {
+		return map[wire.AddrKey]bool{}
+	}
+	return m
 }
 
 func sign(acc wallet.Account, s *channel.State) wallet.Sig {
@@ -566,6 +574,31 @@ func runAdversaryCase(t *testing.T, c *advCase, proto bool, idx int) (what, clas
 			}
 		}
 		// ---- the adversarial sequence ----
+		setNet := func(on bool) {
+			if c.Net != "down" && c.Net != "stall" {
+				return
+			}
+			w.Bus.mu.Lock()
+			defer w.Bus.mu.Unlock()
+			if w.Bus.Down == nil {
+				w.Bus.Down, w.Bus.Unreachable = map[wire.AddrKey]bool{}, orEmpty(w.Bus.Unreachable)
+			}
+			for _, q := range []*Party{a.p, a.x} {
+				k := wire.Keys(q.WireAddr())
+				if c.Net == "down" {
+					w.Bus.Down[k] = on
+				} else {
+					w.Bus.Unreachable[k] = on
+				}
+			}
+		}
+		setNet(true)
+		// the user answers with a bounded context (an unbounded one would make the user, not go-perun, hold the channel)
+		userCtx := func() context.Context {
+			uc, cancelU := context.WithTimeout(ctx, 10*time.Second)
+			_ = cancelU
+			return uc
+		}
 		w.Bus.Proto = proto
 		for n, cl := range c.Seq {
 			if strings.HasSuffix(cl, "-late") { // sent only after the hub's matching time-out (10 s) has fired
@@ -583,19 +616,26 @@ func runAdversaryCase(t *testing.T, c *advCase, proto bool, idx int) (what, clas
 			// proposals and updates that reach the user's handlers are refused by the (honest) user
 			for pp := h.TakeProposal(); pp != nil; pp = h.TakeProposal() {
 				r := pp.Resp
-				go func() { _ = r.Reject(ctx, "no") }()
+				go func() { _ = r.Reject(userCtx(), "no") }()
 				w.Quiesce()
 			}
 			if c.Point != "handling" {
 				for u := h.TakeUpdate(); u != nil; u = h.TakeUpdate() {
 					r := u.Resp
-					go func() { _ = r.Reject(ctx, "no") }()
+					if c.Net == "down" || c.Net == "stall" {
+						// with the network gone the user ACCEPTS what it is shown: the response cannot be sent, the update
+						// has to be rolled back and the channel must stay usable
+						go func() { _ = r.Accept(userCtx()) }()
+					} else {
+						go func() { _ = r.Reject(userCtx(), "no") }()
+					}
 					w.Quiesce()
 				}
 			}
 		}
 		w.Bus.Proto = false
 		w.Sleep(25 * time.Second) // every 10 s time-out of the handlers has fired
+		setNet(false)
 		if proposeDone != nil {   // H's own proposal call (40 s context) returns, whatever the answer was
 			w.Sleep(40 * time.Second)
 			select {
@@ -770,10 +810,10 @@ func TestAdversary(t *testing.T) {
 		if proto {
 			ser = "protobuf"
 		}
-		sup.Begin(n, fmt.Sprintf("%s|%v|%s", c.Point, c.Seq, ser))
+		sup.Begin(n, fmt.Sprintf("%s|%v|%s|%s", c.Point, c.Seq, c.Net, ser))
 		what, class := runAdversaryCase(t, c, proto, n)
 		res.Add("evaluations", 1)
-		res.Seen("case", fmt.Sprintf("%s|%v|%s", c.Point, c.Seq, ser))
+		res.Seen("case", fmt.Sprintf("%s|%v|%s|%s", c.Point, c.Seq, c.Net, ser))
 		if what != "" {
 			kind := "monitor"
 			if class == "leak" {
@@ -785,8 +825,8 @@ func TestAdversary(t *testing.T) {
 				kind = "conformance"
 			}
 			sig := class + "|" + c.Seq[len(c.Seq)-1]
-			rp := map[string]any{"driver": "adversary", "point": c.Point, "seq": c.Seq, "serializer": ser}
-			full := fmt.Sprintf("life-cycle point %q, messages %v (%s): %s", c.Point, c.Seq, ser, what)
+			rp := map[string]any{"driver": "adversary", "point": c.Point, "seq": c.Seq, "net": c.Net, "serializer": ser}
+			full := fmt.Sprintf("life-cycle point %q, messages %v (%s; network towards the remote party: %s): %s", c.Point, c.Seq, ser, c.Net, what)
 			sup.Violate("C12", kind, sig, full, rp)
 			res.Violate("C12", kind, sig, full, rp)
 		}
